@@ -364,7 +364,7 @@ class FQA:
         c_phi = 0.0 if is_singular else -a_z/c_theta                # (eq. 31)
         c_phi = np.clip(c_phi, -1.0, 1.0)
         sign_s_phi = np.sign(s_phi)
-        if c_phi == -1.0 and s_phi == 0.0:
+        if s_phi == 0.0:
             sign_s_phi = 1
         s_phi_2 = sign_s_phi*np.sqrt((1.0-c_phi)/2.0)
         c_phi_2 = np.sqrt((1.0+c_phi)/2.0)
@@ -385,7 +385,7 @@ class FQA:
         c_psi, s_psi = np.array([[Mx, My], [-My, Mx]])@N            # (eq. 39)
         c_psi = np.clip(c_psi, -1.0, 1.0)
         sign_s_psi = np.sign(s_psi)
-        if c_psi == -1.0 and s_psi == 0.0:
+        if s_psi == 0.0:
             sign_s_psi = 1
         s_psi_2 = sign_s_psi*np.sqrt((1.0-c_psi)/2.0)
         c_psi_2 = np.sqrt((1.0+c_psi)/2.0)
